@@ -74,6 +74,42 @@ theorem T_C12_write_idem (m : Mesh) : write (write m).1 = ((write m).1, (write m
       simp only [h', hm, Bool.false_eq_true, if_false]
       exact Prod.ext this rfl
 
+/-- The rejecting branch of `write()` ("Cannot grade a mesh before it is assembled"): it is taken exactly when the mesh is
+    not assembled and no operation of the depot is left to assemble (empty depot, or everything deleted). -/
+theorem T_C12_write_rejects (m : Mesh) :
+    written m = .error .notAssembled ↔ (isAssembled m = false ∧ liveOps m = []) := by
+  have key : ∀ x : Mesh, (writeFrom x).2 = .error .notAssembled ↔ isAssembled x = false := by
+    intro x
+    unfold writeFrom
+    by_cases hx : isAssembled x = true
+    · simp only [hx, Bool.not_true, Bool.false_eq_true, if_false]
+      split <;> simp
+    · have hx' : isAssembled x = false := by simpa using hx
+      simp [hx']
+  unfold written
+  rw [write_eq]
+  by_cases h : isAssembled m = true
+  · simp only [h, if_true, key]
+    simp
+  · have h' : isAssembled m = false := by simpa using h
+    simp only [h', Bool.false_eq_true, if_false, key, true_and]
+    constructor
+    · intro ha
+      rcases Classical.em (liveOps m = []) with hl | hne
+      · exact hl
+      · have := foldl_addOp_verts_ne_nil (slavePatches m) (liveOps m) m.lists (Or.inl hne)
+        rw [← assemble_lists] at this
+        simp [isAssembled] at ha
+        exact absurd ha this
+    · intro hl
+      have : (assemble m).lists = m.lists := by rw [assemble_lists, hl]; rfl
+      simp only [isAssembled, this]
+      exact h'
+
+/-- both sides of `T_C12_write_rejects` occur: an empty mesh is rejected, the example history is not -/
+example : written ({} : Mesh) = .error .notAssembled :=
+  (T_C12_write_rejects {}).mpr ⟨rfl, rfl⟩
+
 theorem T_C12_write_idem_file (m : Mesh) : written (write m).1 = written m := by
   unfold written; rw [T_C12_write_idem]
 
